@@ -47,7 +47,7 @@ func checkC09(ctx *Ctx) {
 		"restored with AOF restore into a fresh instance and compared with the dumps recorded after each acknowledged command: it must be the prefix state the statement allows " +
 		"(everything acknowledged before the rewrite began, nothing duplicated or re-typed). distinct_nontrivial = distinct (image kind, failpoint, rewrite ordinal, policy, command in flight) tuples decided")
 	ctx.Assume("process death = directory image at the failpoint", "virtual clock", "writer/rewrite interleavings are produced by parking the rewrite at a failpoint while a writer runs to completion")
-	if ctx.Fork(8, "", 15*time.Minute) {
+	if ctx.Fork(8, "", ctx.Watchdog()) {
 		return
 	}
 	quietLogs()
